@@ -66,8 +66,59 @@ def case_sample(res, cid):
     src = case_source(res, cid).split("\n")
     decl = [l.strip() for l in src if l.strip()][3:]
     decl = decl[:next((i for i, l in enumerate(decl) if l.startswith("pub mod g")), len(decl)) - 1]
+    events = []
+    if c.get("trace"):
+        try:
+            with open(c["trace"][0]) as f:
+                for i, ln in enumerate(f, 1):
+                    if i >= c["trace"][1]:
+                        events.append(ln.strip()[:300])
+                    if len(events) >= 6:
+                        break
+        except OSError:
+            pass
     return {"case": int(cid), "label": c["label"], "repr": c["repr"], "group_property": c["gprop"],
-            "declaration": decl[:14]}
+            "declaration": decl[:14], "first_events_of_its_trace": events}
+
+
+def case_script(res, cid):
+    """the script lines of one case (header + the block it uses), self-contained"""
+    path = res["cases"][str(cid)].get("script")
+    try:
+        lines = open(path).read().split("\n")
+    except (OSError, TypeError):
+        return None
+    blocks, cur, out, i = {}, None, [], 0
+    hdr = []
+    take = False
+    for ln in lines:
+        if ln.startswith("block "):
+            cur = ln[6:]
+            blocks[cur] = []
+        elif ln == "endblock":
+            cur = None
+        elif cur is not None:
+            blocks[cur].append(ln)
+        elif ln.startswith("case "):
+            take = ln.split(" ")[1] == str(cid)
+            if take:
+                hdr = [ln]
+        elif take:
+            if ln.startswith("use "):
+                b = ln[4:]
+                return ["block " + b] + blocks[b] + ["endblock"] + hdr + [ln]
+            hdr.append(ln)
+    return None
+
+
+def case_lib_source(res, cid):
+    ls = res["cases"][str(cid)].get("libsrc")
+    if not ls:
+        return None
+    try:
+        return "\n".join(open(ls[0]).read().split("\n")[ls[1]:ls[2]])
+    except OSError:
+        return None
 
 
 def write_replay(prop, res, g, tier, seed):
@@ -79,6 +130,7 @@ def write_replay(prop, res, g, tier, seed):
     json.dump({"property": prop, "engine": "rt", "tier": tier, "seed": seed, "facts": g["facts"], "occurrences": g["count"],
                "cases": list(g["cases"])[:20], "case": v["case"], "event": v["ev"], "why": v["why"],
                "trace": v["shard"], "trace_line": v["line"], "rust": case_source(res, v["case"]),
+               "rust_lib": case_lib_source(res, v["case"]), "script": case_script(res, v["case"]),
                "how": "the event at trace_line of trace (recorded from the case above, built from /repo) is not allowed by "
                       "spec/TraceRt.tla; re-run:  /verif/check %s --replay %s" % (prop, path)},
               open(path, "w"), indent=1)
@@ -125,7 +177,7 @@ def main():
         coverage["engines"]["rt"] = {"cases": res["n_cases"], "groups": res["n_groups"], "events_total": res["events"],
                                      "events_for_property": cov["events"], "cases_for_property": cov["cases"],
                                      "case_kinds": res["kinds"], "compile_failures": len(res["failed"]),
-                                     "aborted_calls": res["aborts"], "tlc": res["tlc"], "wall_s": res.get("engine_wall_s")}
+                                     "aborted_calls": res["aborts"], "miri": res.get("miri"), "tlc": res["tlc"], "wall_s": res.get("engine_wall_s")}
         for sig, g in groups.items():
             k = known_match(prop, g["facts"], known)
             labels = ", ".join(f"{k} x{n}" for k, n in g["labels"].most_common(6))
@@ -262,6 +314,13 @@ def main():
                 nviol += 1
         assumptions += ["a dependence on per-process state shows up as different output among 8 (quick) / 32 (thorough) fresh rustc processes; a dependence that needs a rarer trigger is not seen",
                         "digest of the -Zunpretty=expanded text per case module"]
+    # design-level model checks of the implementation-shaped specifications (never a verdict on the code)
+    import models
+    ms = models.for_property(prop, tier)
+    if ms:
+        coverage["design_models"] = ms
+        coverage["states"] += sum(m["states"] for m in ms)
+        coverage["transitions"] += sum(m["transitions"] for m in ms)
     coverage["rule"] = ("cases = derived enums (declaration x configuration) generated from TLC-enumerated discriminant sets and TLC state-graph "
                         "operation paths; one trace per case, validated event by event by TLC against spec/TraceRt.tla; "
                         "distinct_nontrivial = number of distinct cases with at least one event bearing on this property")
